@@ -201,6 +201,19 @@ Theorem C18_appended_slice_position_refuted :
   prog_prunes [IRef 0 0; IRef 1 0; IPrune 2; IRef 1 1].
 Proof. exact appended_slice_position_refuted. Qed.
 
+(** Depth: positions are lists of reference indices of any length and no
+    theorem above bounds the depth of the tree, the number of forks on a key's
+    path ([C18_key_proof_reveals] holds for every key length) or the length of
+    a cursor program.  A position kept in a fixed-width word is refuted: two
+    bits per step in 64 bits lose the marker after 31 steps and return an
+    ancestor of the proven key's leaf (combs of 33+ entries). *)
+Theorem C18_packed_position_refuted :
+  unpack64 (pack64 (repeat 1%nat 31)) = repeat 1%nat 31 /\
+  unpack64 (pack64 (repeat 1%nat 33)) = repeat 1%nat 31 /\
+  is_prefix (unpack64 (pack64 (repeat 1%nat 33))) (repeat 1%nat 32 ++ [0%nat]) = true /\
+  unpack64 (pack64 (repeat 0%nat 32)) = [].
+Proof. exact packed_position_refuted. Qed.
+
 Print Assumptions C18_interleaving_independent.
 Print Assumptions C18_key_proof_reveals.
 Print Assumptions C18_prune_preserves_level0.
